@@ -1,5 +1,5 @@
 """C12 -- symmetries of the kernel and of the curve (DESIGN.md E3/E4)."""
-from .. import panels, kernels, causal
+from .. import quadalg, panels, kernels, causal
 from ..cas import run_tasks
 
 LEVEL = 'other'
@@ -23,6 +23,7 @@ META = {
 
 def run(prog, report, tier):
     panels.check_sym(prog, report)
+    quadalg.check_mirrors(prog, report)
     panels.check_binding(prog, report)
     panels.check_even(prog, report)
     panels.check_integrate(prog, report, rules=('apex', 'precond'))
